@@ -202,6 +202,21 @@ func (e *Engine) buildScript(o *Obligation, forSolver string) string {
 			b.WriteString(e.uninterps[n].decl + "\n")
 		}
 	}
+	{
+		var zs []string
+		for n := range zeroArrayDecls {
+			if strings.Contains(text, n) {
+				zs = append(zs, n)
+			}
+		}
+		sort.Strings(zs)
+		for _, n := range zs {
+			if !emitted["F64"] {
+				emit("F64")
+			}
+			b.WriteString(zeroArrayDecls[n] + "\n")
+		}
+	}
 	b.WriteString(extra)
 	if forSolver == "z3-prelude" {
 		return b.String()
